@@ -149,6 +149,8 @@ def check(prop, tier, args):
                              real=f.get('real'), solver='z3 model of the path condition', approx=f.get('approx'),
                              approx_why=f.get('approx_why')),
                         bool(f.get('reproduced')), sf, approx=bool(f.get('approx')))
+        if r.get('stats', {}).get('bounded_inputs'):
+            rep.add('%s/%s/bounded-stand-in' % (prop, m), 'bounded', 'eval', detail='%d generated inputs through the real validate() (run-time contract check)' % r['stats']['bounded_inputs'])
         for s in r.get('samples', [])[:1]:
             rep.sample(dict(module=m, **s))
     rep.extra['modules'] = len(results)
